@@ -13,9 +13,9 @@ def check(pid, category, text, note, technique, design_ref):
 
 
 check("C21", "model_checking",
-      "TLC explores the reference graph specification ModuleGraphRef.tla exhaustively (4 paths, <=6 operations, one history per abstract graph and registration order); every transition is replayed on the real ModuleGraph and all public queries are compared with the specification after the step; 40-step simulated histories over 6 paths are replayed with every step observed; TSort.tla enumerates every graph over 3-4 names for the real tsort; the implementation-shaped ModuleGraphImpl.tla is checked to refine the reference.",
+      "TLC explores the reference graph specification ModuleGraphRef.tla exhaustively (4 paths, <=6 operations, one history per abstract graph and registration order); every transition is replayed on the real ModuleGraph and all public queries are compared with the specification after the step; 40-step simulated histories over 6 paths are replayed with every step observed; TSort.tla enumerates every graph over 3-4 names for the real tsort; the implementation-shaped ModuleGraphImpl.tla is checked to refine the reference. In the other direction (trace validation), operation sequences chosen outside the model (9 paths, 40-60 operations, 60/800 runs) are applied to the real ModuleGraph, every event is recorded with its outcome and all public queries, and TLC validates the recorded trace against ModuleGraphRef through TraceGraph.tla (acceptance by postcondition; a corrupted-field canary must be rejected at exactly the corrupted event).",
       "Trusted: TLC, the reference semantics of ModuleGraphRef.tla (rename judged only onto fresh names; a refused inc_ref may register the referrer), the vh replayer's projection of the public API.",
-      "TLA+ reference spec + TLC state-graph enumeration, spec->impl replay with full query comparison; layer-B refinement check",
+      "TLA+ reference spec + TLC state-graph enumeration, spec->impl replay with full query comparison; impl->spec trace validation (TraceGraph.tla, TLC postcondition); layer-B refinement check",
       "DESIGN.md section 6 C21")
 
 check("C31", "model_checking",
